@@ -95,6 +95,43 @@ fn c20_readiness_wakes_only_the_waiter() {
     kani::cover!((a >> 32) as u32 ^ a as u32 == (b >> 32) as u32 ^ b as u32, "ids that collide when folded to 32 bits");
 }
 
+/// C20 (c): two coroutines wait on the SAME descriptor, one for reading (token a), one for writing (token b); one of the two
+/// interests is dropped (what shutdown / a finished write does). Readiness for the remaining interest must carry the
+/// token of the coroutine that still waits - never the other one's.
+#[kani::proof]
+#[kani::unwind(6)]
+fn c20_remaining_waiter_keeps_its_token() {
+    reset_records();
+    let p = Poller::new().unwrap();
+    let a: u64 = kani::any();
+    let b: u64 = kani::any();
+    kani::assume(a != b);
+    let x: c_int = kani::any();
+    kani::assume(x >= 0);
+    let read_first: bool = kani::any();
+    if read_first {
+        kani::assert(p.add_read_event(x, a).is_ok(), "a waits to read x");
+        kani::assert(p.add_write_event(x, b).is_ok(), "b waits to write x");
+    } else {
+        kani::assert(p.add_write_event(x, b).is_ok(), "b waits to write x");
+        kani::assert(p.add_read_event(x, a).is_ok(), "a waits to read x");
+    }
+    let drop_write: bool = kani::any();
+    if drop_write {
+        kani::assert(p.del_write_event(x).is_ok(), "write interest dropped");
+        p.registry().verif_set_ready(x, 1);
+    } else {
+        kani::assert(p.del_read_event(x).is_ok(), "read interest dropped");
+        p.registry().verif_set_ready(x, 2);
+    }
+    let (ev, n) = collect(&p);
+    kani::assert(n == 1, "the remaining interest is still registered and its readiness is delivered");
+    let (tok, _, _) = ev[0].unwrap();
+    kani::assert(tok == if drop_write { a } else { b }, "readiness for the remaining interest resumes the coroutine that still waits, not the one whose interest was dropped");
+    kani::cover!(drop_write && read_first, "read then write registered, write dropped");
+    kani::cover!(!drop_write && !read_first, "write then read registered, read dropped");
+}
+
 // ------------------------------------------------------------------------------------------ C21
 const NFD: usize = 2;
 const FDS: [c_int; NFD] = [8, 9];
